@@ -29,6 +29,10 @@ CHECKS = {
    technique="bounded-exhaustive exploration of op sequences, crash points and replica fetch orders on the real crate with has()/contiguous_length compared against a set model",
    text="has(i) for every index below length plus boundary indices in the following bitfield pages, and info().contiguous_length, are compared with the model (i in held set; smallest missing index) in every state of: all small writer histories and their crash images, replica saturations, page-scale macro histories (up to 70 000 one-byte blocks, clears straddling 8192/32768/65536, reopen, crash recovery) and sparse replicas of a 70 000-block writer fetching far-apart indices in every order with reopen after each fetch.",
    note="Page-scale flushes with >200 storage operations are crash-tested at the first/last 24 operations and ~48 evenly spaced points (stated in the evidence). Trusted: set model, journaling backend."),
+ "C04": dict(cat="exploration", ref="DESIGN.md §2 C04",
+   technique="exhaustive single-field alteration and forgery of every honest proof in every saturated replica state, applied to the real replica (E2 x E4)",
+   text="Every replica state reachable by honest replication (C03 saturation) x every honest proof enabled there x every single-field alteration (bit flips in value, every node hash and the signature; +-1 on fork, indices, sizes, seek bytes, upgrade start/length; node drop/duplicate/swap/insert at every position; section removal) plus forgeries built with the independent scheme reference (other-key signatures, foreign writer, substituted block with recomputed ancestors, genuine signature for another length). Oracle: the classes the statement names must be refused; a refused proof leaves all observations (live and after reopen) unchanged; after any accepted proof held blocks equal the writer's, the length pair is one the writer signed and honest replication still completes; never a panic.",
+   note="Sizes of the bottom node of hash-only and seek sections are excluded as in the statement. Numeric alterations are +-1. Trusted: independent BLAKE2b/Ed25519 scheme reference, replica model."),
 }
 
 PENDING = {
